@@ -143,6 +143,7 @@ class _Base(BaseEstimator):
         self.proba = proba
 
     def fit(self, X, y):
+        _STATE.setdefault("cols", set()).add(tuple(str(x) for x in X.columns))
         Xl = [list(r) for r in X.values.tolist()]
         yl = [_lab_in(v, self.labels) if self.ncls else v for v in y.tolist()]
         refit = 1 if hasattr(self, "w_") else 0
@@ -158,6 +159,7 @@ class _Base(BaseEstimator):
         return self
 
     def predict(self, X):
+        _STATE.setdefault("cols", set()).add(tuple(str(x) for x in X.columns))
         Xl = [list(r) for r in X.values.tolist()]
         _STATE["log"].append("p:%d:%d:%d:%s:0" % (self.p, len(Xl), X.shape[1], show_rat(_pred_chk(Xl))))
         _tick()
@@ -181,6 +183,7 @@ class C19ProbaClassifier(C19Classifier):
     a call is logged as `q:` and counted like any estimator call."""
 
     def predict_proba(self, X):
+        _STATE.setdefault("cols", set()).add(tuple(str(x) for x in X.columns))
         Xl = [list(r) for r in X.values.tolist()]
         _STATE["log"].append("q:%d:%d:%d:%s:0" % (self.p, len(Xl), X.shape[1], show_rat(_pred_chk(Xl))))
         _tick()
@@ -214,11 +217,12 @@ def _ncls(c):
 def _frame(c, d):
     ncols = len(d["rows"][0])
     names, j = [], 0
+    cn = d.get("colnames")
     for i in range(ncols):
         if i == d["tpos"]:
             names.append("target")
         else:
-            names.append("c%d" % j); j += 1
+            names.append(cn[j] if cn else "c%d" % j); j += 1
     cols = {}
     for i, nm in enumerate(names):
         col = [r[i] for r in d["rows"]]
@@ -286,6 +290,20 @@ def _ns(c, run):
     return len(c["strategies"]) if ns is None else ns
 
 
+def _real(x):
+    """the name the REAL objects get (strategy / dataset); the model and all canonical output use the alias `name`"""
+    return x.get("real", x["name"])
+
+
+def _aliases(c):
+    return ({_real(x): x["name"] for x in c["strategies"]}, {_real(x): x["name"] for x in c["datasets"]})
+
+
+def _safe(n):
+    """a name that is not one of the case's names, made harmless for the line syntax"""
+    return "?" + "".join(ch if ch.isalnum() or ch in "_-" else "%%%02x" % ord(ch) for ch in str(n))
+
+
 def _build(c, run=None):
     from sktime.benchmarking.data import RAMDataset
     from sktime.benchmarking.tasks import TSCTask, TSRTask
@@ -295,7 +313,7 @@ def _build(c, run=None):
     datasets, tasks = [], []
     for d in c["datasets"]:
         df, feats = _frame(c, d)
-        datasets.append(RAMDataset(df, d["name"]))
+        datasets.append(RAMDataset(df, _real(d)))
         tasks.append((TSCTask if ncls else TSRTask)(target="target", features=feats))
     strategies = []
     for s in (c["strategies"] if run is None else c["strategies"][:_ns(c, run)]):
@@ -303,7 +321,7 @@ def _build(c, run=None):
             est = C19ProbaClassifier(p=s["p"], ncls=ncls, labels=c["labels"], proba=c["proba"])
         else:
             est = (Cl if ncls else Rg)(p=s["p"], ncls=ncls, labels=c["labels"])
-        strategies.append((TSCStrategy if ncls else TSRStrategy)(est, name=s["name"]))
+        strategies.append((TSCStrategy if ncls else TSRStrategy)(est, name=_real(s)))
     return tasks, datasets, strategies, _cv_object(c)
 
 
@@ -344,6 +362,22 @@ def _ints(l):
     return "-" if not l else ",".join(str(int(v)) for v in l)
 
 
+def _alias_hdd_key(key, c):
+    """<strategy>/<dataset>/<strategy>_<part>_<fold> with the real names replaced by the aliases; anything else is
+    made harmless and matches no expected key"""
+    smap, dmap = _aliases(c)
+    parts = key.split(os.sep)
+    if len(parts) == 3 and parts[0] in smap and parts[1] in dmap and parts[2].startswith(parts[0] + "_"):
+        rest = parts[2][len(parts[0]) + 1:]
+        if all(ch.isalnum() or ch == "_" for ch in rest):
+            return "%s/%s/%s_%s" % (smap[parts[0]], dmap[parts[1]], smap[parts[0]], rest)
+    return "/".join(_safe(x) for x in parts)
+
+
+def _alias_name(n, m):
+    return m[n] if n in m else _safe(n)
+
+
 def _snapshot_hdd(path, c):
     """files under the results path, read WITHOUT sktime: {key: (content string, change token)}"""
     import joblib
@@ -355,7 +389,7 @@ def _snapshot_hdd(path, c):
             if rel == "results.pickle":
                 continue
             key, ext = os.path.splitext(rel)
-            key = key.replace(os.sep, "/")
+            key = _alias_hdd_key(key, c)
             st = os.stat(full)
             raw = open(full, "rb").read()
             tok = (st.st_mtime_ns, raw)
@@ -378,8 +412,11 @@ def _snapshot_ram(res, c):
     for key, w in res.results.items():
         # RAMResults keys are tuples (strategy, dataset, part, str(fold)); any other scheme is shown as it is
         # and then matches no expected key
-        if isinstance(key, tuple):
-            key = "+".join(str(x) for x in key)
+        if isinstance(key, tuple) and len(key) == 4:
+            smap, dmap = _aliases(c)
+            key = "+".join([_alias_name(key[0], smap), _alias_name(key[1], dmap), str(key[2]), str(key[3])])
+        elif isinstance(key, tuple):
+            key = "+".join(_safe(x) for x in key)
         elif not isinstance(key, str):
             key = repr(key).replace(" ", "")
         recs[key] = ("%s@%s@%s" % (_ints(w.index), _vals(w.y_true, c), _vals(w.y_pred, c)), w)
@@ -405,13 +442,14 @@ def _join(l, sep):
 
 
 def _load_all(res, c, nfolds):
+    smap, dmap = _aliases(c)
     out = []
     for f in range(nfolds):
         for part in ("train", "test"):
             try:
                 rs = []
                 for w in res.load_predictions(f, part):
-                    rs.append("%s~%s~%s~%s~%s" % (w.strategy_name, w.dataset_name, _ints(w.index), _vals(w.y_true, c), _vals(w.y_pred, c)))
+                    rs.append("%s~%s~%s~%s~%s" % (_alias_name(w.strategy_name, smap), _alias_name(w.dataset_name, dmap), _ints(w.index), _vals(w.y_true, c), _vals(w.y_pred, c)))
                 s = _join(sorted(rs), "&")
             except (KeyError, FileNotFoundError):
                 s = "E:missing"
@@ -446,7 +484,14 @@ def run_real(c):
     from sktime.benchmarking.results import HDDResults, RAMResults
     import joblib
     hdd = c["store"] == "hdd"
-    path = tempfile.mkdtemp(prefix="c19-") if hdd else None
+    root = tempfile.mkdtemp(prefix="c19-") if hdd else None
+    path = None
+    if hdd:   # the results directory may carry characters that are special to glob / regex / shells
+        path = os.path.join(root, c.get("resdir") or "results")
+        os.makedirs(path)
+    smap, dmap = _aliases(c)
+    sreg = lambda names: _join(sorted(_alias_name(n, smap) for n in names), ",")
+    dreg = lambda names: _join(sorted(_alias_name(n, dmap) for n in names), ",")
     logging.disable(logging.WARNING)
     out = []
     try:
@@ -459,7 +504,7 @@ def run_real(c):
                 res = HDDResults(path) if hdd else RAMResults()
                 if not hdd:
                     prev_recs, prev_strats = {}, {}
-            _STATE["n"] = 0; _STATE["fail"] = run["fail"]; _STATE["log"] = []
+            _STATE["n"] = 0; _STATE["fail"] = run["fail"]; _STATE["log"] = []; _STATE["cols"] = set()
             try:
                 orch = Orchestrator(tasks, datasets, strategies, cv, res)
                 orch.fit_predict(overwrite_predictions=run["owP"], predict_on_train=run["pot"],
@@ -476,7 +521,7 @@ def run_real(c):
             master, reload_ = "none", "none"
             if hdd and os.path.isfile(os.path.join(path, "results.pickle")):
                 m = joblib.load(os.path.join(path, "results.pickle"))
-                master = "%s+%s" % (_join(sorted(m.strategy_names), ","), _join(sorted(m.dataset_names), ","))
+                master = "%s+%s" % (sreg(m.strategy_names), dreg(m.dataset_names))
                 # what another process reads back: a NEW results object over the path, registry from the master file
                 other = HDDResults(path)
                 other.strategy_names, other.dataset_names = list(m.strategy_names), list(m.dataset_names)
@@ -488,16 +533,18 @@ def run_real(c):
                 "r%d.recs=%s" % (i, _join(sorted(k + "@" + v[0] for k, v in recs.items()), "|")),
                 "r%d.strats=%s" % (i, _join(sorted(k + "@" + v[0] for k, v in strats.items()), "|")),
                 "r%d.master=%s" % (i, master),
-                "r%d.reg=%s+%s" % (i, _join(sorted(res.strategy_names), ","), _join(sorted(res.dataset_names), ",")),
+                "r%d.reg=%s+%s" % (i, sreg(res.strategy_names), dreg(res.dataset_names)),
                 "r%d.load=%s" % (i, _load_all(res, c, nfolds)),
                 "r%d.reload=%s" % (i, reload_),
+                # real side only (not compared with the model): the column names the estimators were handed
+                "r%d.cols=%s" % (i, _join(sorted(",".join(t) for t in _STATE["cols"]), "|")),
             ]
     except Exception as e:  # construction problems (e.g. invalid names in a history case)
         out.append("E:setup:" + canon_err(e))
     finally:
         logging.disable(logging.NOTSET)
-        if path is not None:
-            shutil.rmtree(path, ignore_errors=True)
+        if root is not None:
+            shutil.rmtree(root, ignore_errors=True)
     return " ".join(out)
 
 
@@ -552,6 +599,8 @@ def _canon(out):
     for k in sorted(d):
         v = d[k]
         sec = k.split(".", 1)[-1]
+        if sec == "cols":
+            continue
         if sec in ("wr", "recs", "strats"):
             v = _join(sorted(set([] if v == "-" else v.split("|"))), "|")
         elif sec in ("master", "reg") and v != "none":
@@ -695,6 +744,18 @@ def oracle(c, out):
                 fails.append((site + ":strategy-saved-unrequested", "run %d: %s saved although save_fitted_strategies was never set" % (i, k)))
             if w != hon_w[its[0]]:
                 fails.append((site + ":saved-strategy-differs-from-honest-fit", "run %d: %s learned %s, honest fit learns %s" % (i, k, w, hon_w[its[0]])))
+        # ---- the X handed to an estimator has the task's feature columns in DATA order (explicit features: given order)
+        exp_cols = set()
+        for dd in c["datasets"]:
+            nc = len(dd["rows"][0]); cn = dd.get("colnames") or ["c%d" % j for j in range(nc - 1)]
+            byname = cn[:dd["tpos"]] + ["target"] + cn[dd["tpos"]:]
+            fpos = dd["feats"] if dd["feats"] is not None else [j for j in range(nc) if j != dd["tpos"]]
+            exp_cols.add(",".join(byname[j] for j in fpos))
+        for seen in _section(d, i, "cols"):
+            if seen not in exp_cols:
+                fails.append(("strategy:estimator-sees-other-columns-or-order",
+                              "run %d: an estimator was handed columns [%s]; the datasets' feature columns in data order are %r" % (i, seen, sorted(exp_cols))))
+                break
         # ---- only the documented estimator methods are called: fit, and predict for every stored prediction
         for cl in calls:
             if not cl.startswith(("f:", "p:")):
@@ -841,7 +902,12 @@ def features(c, out):
     if c["kind"] == "init":
         return ["init=" + out]
     d = _parse(out)
-    _rowidx_feats = []
+    _rowidx_feats = ["names=" + ("special" if any("real" in x for x in c["strategies"] + c["datasets"]) else "plain"),
+                     "resdir=" + ("special" if c.get("resdir") else "plain")]
+    for dd in c["datasets"]:
+        cn = dd.get("colnames")
+        _rowidx_feats.append("colnames=" + ("default" if not cn else ("sorted" if cn == sorted(cn) else "unsorted")) +
+                             ("/feats=none" if dd["feats"] is None else "/feats=explicit"))
     for dd in c["datasets"]:
         ri = dd.get("rowidx")
         f_ri = "range" if ri is None and not dd.get("labels") else ("train/test" if ri is None else
@@ -932,6 +998,43 @@ def _rowidx(rng, n, kind=None):
     return l
 
 
+def _colnames(rng, k, kind=None):
+    """names of the non-target columns, in data order, that are NOT in sorted order (a sorted() of the columns would
+    permute them): reversed letters, dim_<i> with >= 11 columns (dim_10 < dim_2), mixed case, shuffled"""
+    kind = kind or rng.choice(["default", "rev", "rev", "dim", "mixed", "shuffled"])
+    if kind == "default" or k < 1:
+        return None
+    if kind == "rev":
+        return [chr(ord("a") + k - 1 - j) for j in range(k)] if k <= 26 else None
+    if kind == "dim":
+        return ["dim_%d" % j for j in range(k)]
+    if kind == "mixed":
+        return [("x%d" % (10 * (k - j)) if j % 2 else "B%d" % j) for j in range(k)]
+    l = ["f%d" % j for j in range(k)]
+    rng.shuffle(l)
+    return l
+
+
+_REAL_S = ["tree[depth=1]", "k nn", "a*b", "q?", "r.f+", "(x)", "\u00fcn\u00ef-\u00e7", "[", "s]1[", "w{1,2}", "$HOME", "a b.c", "-x", "%s"]
+_REAL_D = ["d[0]", "gun point", "e*", "c.1", "data(2)", "\u00f6l", "[a-z]", "x?", "t^1", "~d", "a&b", "#1"]
+_REAL_DIR = ["res [1]", "r*", "x?(y)", "\u00fcn\u00ef", "a.b+c", "[0-9]", "out dir", "{a,b}"]
+
+
+def _real_names(rng, c, prob=1.0):
+    """give strategies, datasets and the results directory names with characters that are special somewhere
+    (glob, regex, shell, format strings, spaces, unicode); the model keeps the plain aliases"""
+    c = dict(c)
+    if rng.random() < prob:
+        rs = rng.sample(_REAL_S, len(c["strategies"]))
+        c["strategies"] = [dict(x, real=r) for x, r in zip(c["strategies"], rs)]
+    if rng.random() < prob:
+        rd = rng.sample(_REAL_D, len(c["datasets"]))
+        c["datasets"] = [dict(x, real=r) for x, r in zip(c["datasets"], rd)]
+    if rng.random() < prob:
+        c["resdir"] = rng.choice(_REAL_DIR)
+    return c
+
+
 def _dataset(rng, name, n, ncols, ncls, presplit=False, explicit=None, rowidx=None):
     tpos = rng.randrange(ncols)
     feats = None
@@ -945,6 +1048,9 @@ def _dataset(rng, name, n, ncols, ncls, presplit=False, explicit=None, rowidx=No
         rng.shuffle(labs)
         labels = "".join(labs)
     d = {"name": name, "tpos": tpos, "feats": feats, "rows": _mk_rows(rng, n, ncols, tpos, ncls), "labels": labels}
+    cn = _colnames(rng, ncols - 1)
+    if cn:
+        d["colnames"] = cn
     if not presplit and rowidx is not False and (rowidx is not None or rng.random() < 0.55):
         d["rowidx"] = _rowidx(rng, n, rowidx)
     return d
@@ -995,7 +1101,7 @@ def _small_configs(rng, tier):
 def _exhaustive(rng, tier):
     cases = []
     n = 0
-    for cfg in _small_configs(rng, tier):
+    for cfg in [_real_names(rng, cf) for cf in _small_configs(rng, tier)]:
         for pot in (False, True):
             for saveF in (True, False):
                 total = _ncalls(dict(cfg), pot)
@@ -1052,7 +1158,8 @@ def _random_case(rng):
     dss = []
     for nm in dnames:
         n = rng.randrange(5, 10)
-        dss.append(_dataset(rng, nm, n, rng.randrange(2, 5), ncls, presplit=kind.startswith("presplit")))
+        ncols = 13 if rng.random() < 0.1 else rng.randrange(2, 5)   # 13: dim_0..dim_11 sort as dim_0, dim_1, dim_10, ...
+        dss.append(_dataset(rng, nm, n, ncols, ncls, presplit=kind.startswith("presplit")))
     if kind.startswith("kfold"):
         cv = {"kind": "kfold", "k": rng.choice([2, 3]), "shuffle": kind.endswith("shuffle"), "rs": rng.randrange(100)}
     elif kind.startswith("single"):
@@ -1084,7 +1191,7 @@ def _random_case(rng):
             r["ns"] = cur
             cur = min(ns, cur + rng.choice([0, 1, 1]))
     c["runs"] = runs
-    return c
+    return _real_names(rng, c, prob=0.5)
 
 
 def _malformed(rng):
